@@ -212,6 +212,41 @@ def accessor_calls(run, cases, only=None):
                 okk, detail = readcalls.compare(out, ans['alts'], fc.ref,
                                                 header_of=lambda t, fc=fc, ans=ans: fc.header([x for x in ans['alts'] if x['kind'] == 'header'][0]['grid']))
                 run.check(okk, f'C14.no-unreal-data[emu.{acc}]', case, detail, 'the item Python indexing denotes')
+        # line numbers / sample times that lie BETWEEN two coordinates of a non-unit axis: no such line, so no data
+        for fi, fc in enumerate(cases):
+            F = fc.F
+            if F['dim'] != 3 or only is not None:
+                continue
+            if fi not in emus:
+                with env.quiet():
+                    emus[fi] = seismic_zfp.open(fc.path)
+            e = emus[fi]
+            il, xl, zs = np.asarray(e.ilines), np.asarray(e.xlines), np.asarray(e.subvolume.zslices_int)
+            dil, dxl, dz = int(il[1] - il[0]), int(xl[1] - xl[0]), int(zs[1] - zs[0])
+            probes = []
+            if abs(dil) > 1:
+                mid = int(il[1] + (1 if dil > 0 else -1))
+                probes += [('emu.iline', lambda e=e, mid=mid: e.iline[mid]), ('emu.subvolume', lambda e=e, mid=mid: e.subvolume[mid:int(il[-1]) + dil:dil, int(xl[0]):int(xl[1]) + dxl:dxl, int(zs[0]):int(zs[1]) + dz:dz]),
+                           ('emu.subvolume', lambda e=e, mid=mid: e.subvolume[int(il[0]):mid:dil, int(xl[0]):int(xl[1]) + dxl:dxl, int(zs[0]):int(zs[1]) + dz:dz])]
+            if abs(dxl) > 1:
+                midx = int(xl[1] + (1 if dxl > 0 else -1))
+                probes += [('emu.xline', lambda e=e, midx=midx: e.xline[midx]), ('emu.subvolume', lambda e=e, midx=midx: e.subvolume[int(il[0]):int(il[1]) + dil:dil, midx:int(xl[-1]) + dxl:dxl, int(zs[0]):int(zs[1]) + dz:dz])]
+            if abs(dz) > 1:
+                midz = int(zs[1] + 1)
+                probes += [('emu.subvolume', lambda e=e, midz=midz: e.subvolume[int(il[0]):int(il[1]) + dil:dil, int(xl[0]):int(xl[1]) + dxl:dxl, midz:int(zs[-1]) + dz:dz]),
+                           ('emu.subvolume', lambda e=e, midz=midz: e.subvolume[int(il[0]):int(il[1]) + dil:dil, int(xl[0]):int(xl[1]) + dxl:dxl, int(zs[0]):midz:dz])]
+            for j, (name, thunk) in enumerate(probes):
+                case = {'file': fc.label, 'op': name + '[between coordinates]', 'args': [j]}
+                run.case(case)
+                with env.quiet():
+                    try:
+                        v = thunk()
+                        out = ('value', np.asarray(v))
+                    except BaseException as ex:
+                        if isinstance(ex, (KeyboardInterrupt, SystemExit, MemoryError)):
+                            raise
+                        out = ('raise', type(ex).__name__, [c.__name__ for c in type(ex).__mro__])
+                run.check(out[0] == 'raise', f'C14.no-unreal-data[{name}]', case, readcalls.describe(out)[:120], 'an exception: there is no such line / sample')
     finally:
         for e in emus.values():
             with env.quiet():
@@ -232,7 +267,10 @@ def replay(run, rep):
                  if c.label == case['file']]
     fc = cases[0]
     if case['op'].startswith('emu.'):
-        accessor_calls(run, [fc], only=(fc.label, case['op'][4:], case['args'][0]))
+        if 'between coordinates' in case['op']:
+            accessor_calls(run, [fc])          # (the whole accessor pass of that file: the probes are built from its axes)
+        else:
+            accessor_calls(run, [fc], only=(fc.label, case['op'][4:], case['args'][0]))
         return
     ans = session.eval_calls([fc], [(0, case['op'], case['args'])], run)[0]
     with env.quiet():
